@@ -251,3 +251,30 @@ CHECKS["C06"] = {
         {"name": "random-sets", "run": "^TestC06Random$", "kind": "rapid", "checks": {"quick": 2000, "thorough": 80000}, "shards": {"quick": 4, "thorough": 16}},
     ],
 }
+
+CHECKS["C17"] = {
+    "pkg": "props/c17",
+    "level": "exploration",
+    "rule": "Args: every (key,value) pair with 0..2 symbols each over the hostile alphabet {% + & = ; # ? / : @ SP NUL a Z 0 e-acute 0xff quote comma} alone and inside a 3-entry list (round-trip and fixed point); every query string of 0..4 (thorough 0..5) symbols over {% + & = ; a 4 1 %41 %2 %zz SP e-acute / ?} compared with net/url.ParseQuery where it accepts; random lists of arbitrary bytes. "
+            "URI: every string of 0..3 (thorough 0..4) alphabet symbols as path segment / inner segment / arg key+value / fragment / raw query x schemes x hosts incl. ports and IPv6 literals (parse(FullURI) equality, fixed point, RequestURI re-parse); random longer ones. "
+            "Cookie: keys x values x domains x paths x all flag subsets x 5 SameSite modes x Max-Age x Expires exhaustively, plus random token/value strings. Non-trivial = a slot contains a byte that must be escaped or a delimiter of its context; exhaustive units are distinct by construction.",
+    "assumptions": [
+        "excluded by construction (counted): raw query containing '#', raw query/fragment with CTL bytes (URI.parse deliberately refuses them), hosts containing / ? # @, cookie values with ';' or surrounding quotes/spaces",
+        "userinfo is not part of FullURI and is not compared; host and scheme are compared lower-cased (documented)",
+        "entries with both key and value empty are excepted, as the statement says; the public Args API cannot create a key without '='",
+        "when both Max-Age and Expires are set hertz serialises Max-Age only (documented in SetMaxAge): then Max-Age is compared",
+    ],
+    "level_text": "Bounded-exhaustive + random round-trip and fixed-point checks for the three codecs, plus a differential check of query parsing against net/url on every generated string net/url accepts.",
+    "level_note": "Complete within the stated alphabets and lengths; trusts net/url as the independent query parser.",
+    "technique": "bounded-exhaustive enumeration + rapid; round-trip / fixed-point oracles and differential testing against net/url",
+    "nontrivial_floor": 1000,
+    "units": [
+        {"name": "args-exhaustive", "run": "^TestC17ArgsExhaustive$", "kind": "plain", "shards": 8},
+        {"name": "args-vs-neturl", "run": "^TestC17ArgsDifferential$", "kind": "plain", "shards": 8},
+        {"name": "args-random", "run": "^TestC17ArgsRandom$", "kind": "rapid", "checks": {"quick": 20000, "thorough": 800000}, "shards": {"quick": 4, "thorough": 16}},
+        {"name": "uri-exhaustive", "run": "^TestC17URIExhaustive$", "kind": "plain", "shards": 8},
+        {"name": "uri-random", "run": "^TestC17URIRandom$", "kind": "rapid", "checks": {"quick": 20000, "thorough": 800000}, "shards": {"quick": 4, "thorough": 16}},
+        {"name": "cookie-exhaustive", "run": "^TestC17CookieExhaustive$", "kind": "plain", "shards": 8},
+        {"name": "cookie-random", "run": "^TestC17CookieRandom$", "kind": "rapid", "checks": {"quick": 20000, "thorough": 800000}, "shards": {"quick": 4, "thorough": 16}},
+    ],
+}
